@@ -6,6 +6,9 @@ package main
 //   managerOpsInClosure   in sessionManager.join/leave/write every use of the session table (`record`) and the
 //                         hand-over `… .activeMsgChan <- …` is inside the func literal sent on operationFuncChan
 //                         (so lookup + enqueue / insert / delete are one atomic manager operation)
+//   managerOneOpPerCall   each of join/leave/write sends exactly one func literal on operationFuncChan and calls no other
+//                         method of the session manager (test-then-insert, lookup-then-hand-over are ONE manager operation,
+//                         not two that another connection's operation can come between)
 //   enqueueBlocking       that hand-over is a plain send statement, not a case of a `select` with a `default`
 //   stopLeaveBeforeClose  in connection.stop: leaveFunc(...) is called before close(stopChan) and conn.Close()
 //   reissueSendBlocking   in connection.reader: the send on reissuePackChan is a plain (blocking) send
@@ -47,6 +50,7 @@ func doConcShape(repo, out string) error {
 	}
 	// --- session manager
 	inClosure := true
+	oneOp := true
 	enqueueBlocking := true
 	sawEnqueue := false
 	for _, name := range []string{"sessionManager.join", "sessionManager.leave", "sessionManager.write"} {
@@ -75,6 +79,29 @@ func doConcShape(repo, out string) error {
 		}
 		if len(lits) == 0 {
 			inClosure = false
+		}
+		nSend := 0
+		recvName := ""
+		if len(fd.Recv.List[0].Names) == 1 {
+			recvName = fd.Recv.List[0].Names[0].Name
+		}
+		ast.Inspect(fd.Body, func(n ast.Node) bool {
+			switch x := n.(type) {
+			case *ast.SendStmt:
+				if strings.HasSuffix(exprString(x.Chan), "operationFuncChan") {
+					nSend++
+				}
+			case *ast.CallExpr:
+				if se, ok := x.Fun.(*ast.SelectorExpr); ok {
+					if id, ok := se.X.(*ast.Ident); ok && id.Name == recvName && meth["sessionManager."+se.Sel.Name] != nil {
+						oneOp = false
+					}
+				}
+			}
+			return true
+		})
+		if nSend != 1 || len(lits) != 1 {
+			oneOp = false
 		}
 		// parents for the select/default test
 		var stack []ast.Node
@@ -288,6 +315,7 @@ func doConcShape(repo, out string) error {
 	var sb strings.Builder
 	sb.WriteString("/-! GENERATED by /verif/harness/cmd/extract (concshape) from package service of /repo — do not edit.\nShape facts of the concurrent code that the transition-system models assume (see the extractor's header). -/\nnamespace JT.Gen\n")
 	fmt.Fprintf(&sb, "def managerOpsInClosure : Bool := %v\n", inClosure)
+	fmt.Fprintf(&sb, "def managerOneOpPerCall : Bool := %v\n", oneOp)
 	fmt.Fprintf(&sb, "def enqueueBlocking : Bool := %v\n", enqueueBlocking)
 	fmt.Fprintf(&sb, "def stopLeaveBeforeClose : Bool := %v\n", stopOrder)
 	fmt.Fprintf(&sb, "def reissueSendBlocking : Bool := %v\n", reissue)
